@@ -1079,7 +1079,7 @@ func handleConnections(closed <-chan struct{}, parentwg *sync.WaitGroup, message
 		for {
 			select {
 			case <-closed:
-				break
+				return
 			case bid := <-deny:
 				verifhook.Point("crossbar.denyReceived", bid)
 				err := dcs.DeleteAndCloseParent(bid) //close all connections with this booking id
